@@ -152,19 +152,17 @@ func init() {
 			return
 		}
 		pnumOff := payLin.Sub(Linearize(pn))
-		// the last store to pktLim (the conditional clamp) must be <= pnumOff + 16383 - overhead
+		// some store to pktLim (the conditional clamp, or a min(...)) is bounded by pnumOff + 16383 - overhead
 		capped := false
 		for _, in := range lims {
-			d := Linearize(in.(*ssa.Store).Val).Sub(pnumOff)
-			if d.IsConst() && d.K <= 16383-over {
-				capped = true
-				// and it applies whenever it is smaller than the datagram-derived limit
-				st := in.(*ssa.Store)
-				want := LEZero(Linearize(st.Val).Sub(Linearize(lims[len(lims)-2].(*ssa.Store).Val)).AddK(1))
-				_ = want
-			} else if d.IsConst() {
-				c.Fail("length-field-cap", name+": pktLim clamp <= pnumOff + 16383 - aeadOverhead", in.Pos(), fmt.Sprintf("pktLim = pnumOff + %d allows Length = %d > 16383: the hard-coded 2-byte varint wraps", d.K, d.K+over))
-				return
+			for _, u := range upperBounds(in.(*ssa.Store).Val) {
+				d := Linearize(u).Sub(pnumOff)
+				if d.IsConst() && d.K <= 16383-over {
+					capped = true
+				} else if d.IsConst() {
+					c.Fail("length-field-cap", name+": pktLim clamp <= pnumOff + 16383 - aeadOverhead", in.Pos(), fmt.Sprintf("pktLim = pnumOff + %d allows Length = %d > 16383: the hard-coded 2-byte varint wraps", d.K, d.K+over))
+					return
+				}
 			}
 		}
 		c.Check(capped, "length-field-cap", name+": pktLim clamp <= pnumOff + 16383 - aeadOverhead", fn.Pos(), "", "no store caps pktLim relative to the packet number offset")
@@ -237,7 +235,7 @@ func init() {
 						bad = FnName(fn) + " calls " + CalleeName(ci.Common())
 						pos = in.Pos()
 					}
-					for _, a := range ci.Common().Args {
+					for _, a := range BaselineArgs(ci.Common()) {
 						if f, isF := a.(*ssa.Function); isF && banned[FnName(f)] {
 							bad = FnName(fn) + " passes " + FnName(f)
 							pos = in.Pos()
